@@ -1331,7 +1331,7 @@ esl_abc_Match(const ESL_ALPHABET *abc, ESL_DSQ x, ESL_DSQ y, double *p)
     { 
       if (x==y) return 1.0; else return 0.0;
     }
-  if ( ! esl_abc_XIsResidue(abc, x) || ! esl_abc_XIsResidue(abc, x))  return 0.0;
+  if ( ! esl_abc_XIsResidue(abc, x) || ! esl_abc_XIsResidue(abc, y))  return 0.0;
 
   /* Else, we have at least one degenerate residue, so calc an average or expectation.
    */
